@@ -35,7 +35,15 @@ def main(argv=None) -> int:
             print("replaying %d recorded obligation(s) of %s against %s" % (len(rp.get("failed_obligations", [])), pid, ctx.program.root))
             for o in rp.get("failed_obligations", []):
                 print("  recorded: %s" % json.dumps(o))
-        mod.run(ctx)
+        ctx.guard(mod.run, ctx)
+        failed = [o for o in ctx.report.obs if not o.ok]
+        if ctx.analysis_errors and not failed:
+            raise AnalysisError("; ".join(ctx.analysis_errors[:3]))
+        if ctx.analysis_errors:
+            for e in ctx.analysis_errors[:5]:
+                print("note: part of the analysis could not be completed: %s" % e)
+            ctx.report.notes += ["analysis incomplete: %s" % e for e in ctx.analysis_errors[:5]]
+            ctx.report.floors.clear()
         if ctx.thorough and not ctx.no_selftest:
             from .selftest import thorough_slice
 
